@@ -15,10 +15,24 @@ CHECKS = {
             "Seeded search over generated repositories x root selections x peer schedules; every run is compared field by field with an independent model, and the traffic at the simulated git boundary (roots fed to rev-list, objects requested from cat-file) is checked as an invariant.", "4 C01", TRUSTED),
     "C02": ("exploration", "deterministic simulation: seeded worlds + simulated git peers, delivery position of the maximum varied by the plan, vs. reference model",
             "Seeded search; maxima compared with the model while the plan moves the maximal object through the delivery order.", "4 C02", TRUSTED),
-    "C03": ("exploration", "deterministic simulation: commit delivery drawn from the linear extensions of child-before-parent, tags in any order, vs. longest-chain model",
+    "C03": ("exploration", "deterministic simulation: commit delivery drawn from the linear extensions of child-before-parent, tags in any order; Graph-feed enumeration of every order for small DAGs; vs. longest-chain model",
             "Seeded search over DAGs x timestamp assignments x delivery orders; exhaustive order enumeration for small graphs through the Graph API driver.", "4 C03", TRUSTED),
-    "C04": ("exploration", "deterministic simulation: tree delivery orders (deferred listeners) vs. recursive-expansion model in big integers",
+    "C04": ("exploration", "deterministic simulation: tree delivery orders (deferred listeners), Graph-feed enumeration of every tree permutation for small DAGs, vs. recursive-expansion model in big integers",
             "Seeded search over tree DAGs x delivery orders; each of the seven dimensions judged independently.", "4 C04", TRUSTED),
+    "C05": ("exploration", "deterministic simulation with a simulated disk: declared object sizes and bombs served by simulated git peers, vs. min(true, capacity) in big integers; work counted at the simulated boundary",
+            "Seeded search over worlds whose true values straddle 2^32 and 2^64 (only the simulated peers can supply them); value, infinity sign, concern marker and JSON capacity checked; work measured as requests seen by the simulated cat-file. The all-operand-pairs arithmetic law is a pure function and is not decided by this technique.", "4 C05", TRUSTED),
+    "C06": ("exploration", "deterministic simulation: option sequences (exhaustive to length 2, seeded beyond) observed at the simulated rev-list stdin and --show-refs, vs. last-matching-rule fold",
+            "Deterministic prefix plus seeded search; the selection is observed where it takes effect (the roots fed to the simulated rev-list) and in the census.", "4 C06", TRUSTED),
+    "C07": ("exploration", "deterministic simulation: generated refgroup forests (real git config as peer) x reference sets, three output formats vs. recursive tally model",
+            "Seeded search over refgroup forests up to 16 levels; git's own config listing is the input of the oracle.", "4 C07", TRUSTED),
+    "C09": ("exploration", "deterministic simulation, metamorphic: one world under >= 4 delivery schedules / root orders / storage layouts / commit dates; Graph-feed enumeration of every order",
+            "All numeric fields must agree across variants and with the model; small graphs are fed to sizes.Graph in every order.", "4 C09", TRUSTED),
+    "C10": ("fault_enumeration", "deterministic simulation with fault injection: every output offset x exit/signal of each simulated git process on small worlds, plus seeded fault sequences, one-shot failures through a git proxy, invalid input; real binary behind the proxy as second judge",
+            "Single-fault points of small worlds are enumerated completely (quick tier: bounded per world, thorough: complete); multi-fault sequences, chunking and delays are explored by seeded search; hangs are detected exactly by the fake-time watchdog.", "4 C10", TRUSTED + " Engine B samples real process semantics (exit statuses, signals) through /verif/bin/gitshim."),
+    "C15": ("exploration", "deterministic simulation: config scopes with foreign entries of every value shape, real git config as the peer whose bytes the oracle parses NUL-first",
+            "Seeded search over configuration contents; observed through tallies and --include=@G acceptance.", "4 C15", TRUSTED),
+    "C18": ("exploration", "deterministic simulation of the progress meter: baton scheduler over worker / ticker goroutines parked at hook H1 / fake clock, online invariants on every frame; whole-system runs with peers slowed on the fake clock",
+            "Seeded search over schedules including the window 'tick received, lock not yet taken' for current and stale tickers; about 10^4 schedules per second.", "4 C18", TRUSTED + " Hook H1 (build tag verif) in meter/meter.go."),
 }
 
 NOT_APPLICABLE = {
